@@ -88,7 +88,7 @@ theorem complete_sound (hyps : SoundHyps cx.ops cx.schema) : (d : RVal) → ∀ 
     (node : FieldNode) (pos : List PSeg), Conforms cx.ops cx.schema t d →
     NodeWT cx.schema cx.doc t.baseName node →
     Res cx t node d (Spec.completeValue cx t [node] pos d)
-  | .raise tag, t, node, pos, hc, _ => by simp [Conforms] at hc
+  | .raise tag p, t, node, pos, hc, _ => by simp [Conforms] at hc
   | .null, t, node, pos, hc, _ => by
     simp only [Conforms] at hc
     unfold Spec.completeValue Spec.completeNull
